@@ -3,6 +3,8 @@ import VlsModel.Lemmas.Locks
 import VlsModel.Gen.LockTable
 import VlsModel.Model.Locks2pl
 import VlsModel.Lemmas.Locks2pl
+import VlsModel.Lemmas.LocksAtomic
+import VlsModel.Lemmas.LocksErase
 /-
 Property C20 — concurrent requests neither deadlock nor break per-channel atomicity.
 
@@ -155,11 +157,52 @@ theorem C20_handler_census :
   decide +kernel
 
 /-- generated-table obligation (site census): the functions that contain a lock acquisition and are reached
-by no request program are exactly the reviewed constructors / restore code / test-only accessors -/
+by no request program are exactly the reviewed constructors / restore code / test-only accessors
+(`provider::new` — the constructor of the commitment-point provider, which locks the new slot — is reached from
+`setup_channel` since the call-graph resolution follows `ChannelCommitmentPointProvider::new`) -/
 theorem C20_site_census :
     unreachedSites = ["monitor::add_funding", "monitor::closing_depth", "monitor::funding_depth",
       "monitor::funding_double_spent_depth", "monitor::new_from_persistence", "node::maybe_sync_persister",
-      "node::new_from_persistence", "node::restore_node", "provider::new"] := by rfl
+      "node::new_from_persistence", "node::restore_node"] := by rfl
+
+/-- generated-table obligation (call census — lock scopes taken through helper functions): the calls in scanned
+bodies that the call-graph resolution does NOT follow although a function of that NAME in the scanned files takes
+a lock are exactly these thirty reviewed ones: the `Approve` delegate chain (trait object, trusted base), constructors
+and restore code, same-name dispatch (`ChannelSlot::chaninfo`), same-name methods of the guarded data
+(`State::is_done` behind `ChainMonitorBase::is_done`), the factory's own `policy`, the closure parameter of
+`ChainTracker::do_push`, and `do_handle` (split into its arms).  In particular NO call on a validator object
+(`validator.x(`, `self.validator().x(`, the `inner` validator of `OnchainValidator`) is left unresolved: the validators
+reach `Node::allowlist_contains` / `can_spend` (node_state) through their `wallet` argument while the slot is held. -/
+theorem C20_call_census :
+    unresolvedCalls = ["approver: delegate.approve_invoice", "approver: delegate.approve_keysend",
+      "approver: delegate.approve_onchain", "channel: chan.chaninfo", "channel: enforcement_state.balance",
+      "channel: keys.release_commitment_secret", "channel: stub.chaninfo", "handler: InitHandler.new",
+      "handler: Node.new", "handler: Node.restore_node", "handler: self.do_handle",
+      "monitor: get_state().diagnostic", "monitor: get_state().is_done", "monitor: state.on_add_block_end",
+      "node: ChainMonitorBase.new", "node: ChainMonitorBase.new_from_persistence",
+      "node: Node.new_from_persistence", "node: Node.restore_node", "node: NodeState.new",
+      "node: channel.restore_payments", "node: validator_factory().policy", "node: validator_factory.policy",
+      "onchain_validator: SimpleValidatorFactory.new", "onchain_validator: inner_factory.policy",
+      "tracker: pl.on_block_end", "tracker: pl.on_block_start", "tracker: pl.on_transaction_end",
+      "tracker: pl.on_transaction_input", "tracker: pl.on_transaction_output",
+      "tracker: pl.on_transaction_start"] := by rfl
+
+/-- generated-table obligation (file census): the only files of vls-core/src and vls-protocol-signer/src outside the
+scanned ones (tests excluded) that contain a lock expression are the hook's tap, the manual clock, the mocks and the
+`MultiSigner` front end (reviewed: its `nodes` mutex is outermost, its `with_channel` copies `Node::with_channel`) -/
+theorem C20_file_census :
+    unscannedLockFiles = [("vls-core/src/signer/multi_signer.rs", 8), ("vls-core/src/util/clock.rs", 2),
+      ("vls-core/src/util/mocks.rs", 1), ("vls-core/src/verif_sync.rs", 4)] := by decide
+
+/-- generated-table obligation: the sweep-signing arms validate their destination against the wallet/allowlist
+(node_state) while the slot is held — the edge the validator calls contribute (it was missing from these rows
+before the resolution followed calls on validator objects) -/
+theorem C20_sweep_arms_reach_node_state :
+    ∀ n ∈ ["Channel.SignDelayedPaymentToUs", "Channel.SignRemoteHtlcToUs", "Channel.SignPenaltyToUs",
+           "Root.SignAnyDelayedPaymentToUs", "Root.SignAnyRemoteHtlcToUs", "Root.SignAnyPenaltyToUs",
+           "Channel.SignMutualCloseTx2"],
+      ∃ a ∈ arms, a.1 = n ∧ (Cls.slot, Cls.nodeState) ∈ a.2 := by
+  decide +kernel
 
 /-- generated-table obligation: every lock order that a comment of the sources documents (`lock order:
 tracker -> channels -> channel -> node state`, `tracker before channels`, monitor.rs "after `self.state`") is
@@ -603,6 +646,120 @@ example :
         (fun s => (s.mem 9 % 2, s.threads.all (fun t => t.todo.isEmpty)))) = some (0, true) := by
   decide +kernel
 
+/-! ### Per-channel atomicity: a lock-held interval is atomic, for ARBITRARY requests -/
+
+/-- **A lock-held interval is atomic** (unbounded: any lock/data types, any number of threads, ANY requests — no
+two-phase hypothesis —, every schedule).  Take any reachable state `s0` in which thread `i` holds `l` (for a channel
+request: `slot c`, right after `slot_arc.lock()`), and let `evs` be the events it executes before it releases `l`
+(no `rel l` in `evs`: the critical section as delimited by the guard's scope in the source).  Then, whatever the other
+threads do in between (any number of steps of anybody), at every point `pre ++ post = evs` of the interval thread `i`
+still holds `l` and the cell guarded by `l` is the value it had at `s0` transformed by thread `i`'s OWN updates `pre`,
+in program order: no foreign write (and so no foreign read-modify-write) falls between the read phase and the write
+phase of the section.  This is the per-channel atomicity of a request whose accesses to the channel lie in one
+lock-held interval. -/
+theorem Locks_section_atomic {L D : Type} [DecidableEq L] (mem0 : L → D) (reqs : List (List (DEv L D)))
+    (n0 : Nat) (s0 : DState L D) (hreach : Locks2pl.Steps n0 (Locks2pl.mkState mem0 reqs) s0)
+    (i : Nat) (t : DThread L D) (l : L) (evs rest : List (DEv L D))
+    (hi : s0.threads[i]? = some t) (hheld : l ∈ t.held) (htodo : t.todo = evs ++ rest)
+    (hnorel : ∀ x, DEv.rel x ∈ evs → x ≠ l) :
+    ∀ n s, Locks2pl.Steps n s0 s → ∀ t', s.threads[i]? = some t' →
+      ∀ pre post, evs = pre ++ post → t'.todo.length = post.length + rest.length →
+        s.mem l = app (s0.mem l) (updsOn l pre) ∧ l ∈ t'.held := by
+  intro n s hsteps t' ht' pre post hsplit hlen
+  have he0 : Excl s0.threads := excl_steps (excl_init mem0 reqs) hreach
+  have inv0 : SecInv i l (s0.mem l) evs rest s0 :=
+    ⟨t, hi, Or.inl ⟨[], evs, rfl, htodo, hheld, rfl⟩⟩
+  obtain ⟨t'', ht'', hd⟩ := secInv_steps hnorel he0 inv0 hsteps
+  rw [ht'] at ht''
+  cases ht''
+  rcases hd with ⟨pre', post', hevs, htodo', hheld', hmem⟩ | hlt
+  · have hl : post.length = post'.length := by
+      rw [htodo'] at hlen; simp at hlen; omega
+    have hpp : pre = pre' := (List.append_inj' (hsplit.symm.trans hevs) hl).1
+    subst hpp
+    exact ⟨hmem, hheld'⟩
+  · omega
+
+/-- … in particular at the END of the interval (just before the release): the cell holds the value at the start
+transformed by exactly the section's own updates — the section is one atomic read-modify-write -/
+theorem Locks_section_atomic_end {L D : Type} [DecidableEq L] (mem0 : L → D) (reqs : List (List (DEv L D)))
+    (n0 : Nat) (s0 : DState L D) (hreach : Locks2pl.Steps n0 (Locks2pl.mkState mem0 reqs) s0)
+    (i : Nat) (t : DThread L D) (l : L) (evs rest : List (DEv L D))
+    (hi : s0.threads[i]? = some t) (hheld : l ∈ t.held) (htodo : t.todo = evs ++ rest)
+    (hnorel : ∀ x, DEv.rel x ∈ evs → x ≠ l) :
+    ∀ n s, Locks2pl.Steps n s0 s → ∀ t', s.threads[i]? = some t' → t'.todo = rest →
+      s.mem l = app (s0.mem l) (updsOn l evs) := by
+  intro n s hsteps t' ht' hrest
+  exact (Locks_section_atomic mem0 reqs n0 s0 hreach i t l evs rest hi hheld htodo hnorel n s hsteps t' ht'
+    evs [] (by simp) (by rw [hrest]; simp)).1
+
+/-- non-vacuity of `Locks_section_atomic`: thread 0 is inside its section on cell 9 (`+2`, then `×5`), thread 1
+contends for the same cell -/
+example : ∃ (s0 : DState Nat Nat) (t : DThread Nat Nat),
+    Locks2pl.Steps 1 (Locks2pl.mkState (fun _ => 4)
+      [[.acq 9, .upd 9 (· + 2), .upd 9 (· * 5), .rel 9], [.acq 9, .upd 9 (· * 3), .rel 9]]) s0 ∧
+    s0.threads[0]? = some t ∧ 9 ∈ t.held ∧
+    t.todo = [.upd 9 (· + 2), .upd 9 (· * 5)] ++ [.rel 9] ∧
+    (∀ x, DEv.rel x ∈ ([.upd 9 (· + 2), .upd 9 (· * 5)] : List (DEv Nat Nat)) → x ≠ 9) :=
+  ⟨_, _, Locks2pl.Steps.tail (Locks2pl.Steps.refl _) ⟨0, rfl⟩, rfl, by decide, rfl,
+    by intro x hx; simp at hx⟩
+
+/-- the hypothesis "no release of `l` inside the interval" is NECESSARY (the check-then-act shape of findings F11b /
+F11c / F11e): thread 0 reads cell 9 in one section and writes it in a SECOND one; thread 1's `×3` falls in between and
+the cell ends as `4·3+1 = 13`, not as thread 0's own updates `4+1 = 5` -/
+example :
+    let r0 : List (DEv Nat Nat) := [.acq 9, .upd 9 id, .rel 9, .acq 9, .upd 9 (· + 1), .rel 9]
+    let r1 : List (DEv Nat Nat) := [.acq 9, .upd 9 (· * 3), .rel 9]
+    ((Locks2pl.runSched (Locks2pl.mkState (fun _ => 4) [r0, r1]) [0, 0, 0, 1, 1, 1, 0, 0]).map
+        (fun s => s.mem 9)) = some 13 := by
+  decide +kernel
+
+/-- the critical sections a program opens on lock class `c`, in program order, with their write flags -/
+def secsOf (c : Cls) (p : List (Bool × Bool × Cls)) : List Bool :=
+  (p.filter (fun e => e.1 && e.2.2 == c)).map (·.2.1)
+
+/-- the program touches class `c` in some section and LATER, in a separate section, writes it: its read phase and its
+write phase on `c` are not one lock-held interval -/
+def splitRW (c : Cls) (p : List (Bool × Bool × Cls)) : Bool := (secsOf c p).tail.any id
+
+def allCls : List Cls :=
+  [.tracker, .channels, .slot, .monitor, .monitorDecode, .nodeState, .validatorFactory, .store, .approver]
+
+/-- generated-table obligation (hypothesis of `Locks_section_atomic` for the extracted programs): the (program,
+lock class) pairs in which a section on the class is followed by a separate WRITING section on the same class are
+exactly these — the node-ledger check-then-act programs (`check_onchain_tx` and the withdrawal arms through it, the
+approval arms = finding F11e, the pre-v5 ValidateCommitmentTx arms, whose later section re-validates), the block
+programs (one monitor after the other: different instances) and `Root.SignCommitmentTx` (two branches of one `if`
+listed in sequence).  For EVERY other program and class — in particular the channel map in `new_channel`,
+`forget_channel`, `setup_channel`, the tracker in `setup_channel` / `get_heartbeat` / `unchecked_sign_onchain_tx`,
+and the slot in every `with_channel` request and every `sign_*` arm — all writes to the guarded data happen in the
+FIRST section the program opens on it, i.e. lookup/validation (read phase) and insert/remove/update (write phase)
+share one lock-held interval, to which `Locks_section_atomic` applies. -/
+theorem C20_rw_phases_one_interval :
+    progs.flatMap (fun p => (allCls.filter (fun c => splitRW c p.2)).map (fun c => (p.1, c))) =
+      [("kind:check_onchain_tx", .nodeState), ("kind:add_block", .monitor), ("kind:remove_block", .monitor),
+       ("Root.PreapproveInvoice", .nodeState), ("Root.PreapproveKeysend", .nodeState),
+       ("Root.SignWithdrawal", .nodeState), ("Root.SignHtlcTxMingle", .nodeState),
+       ("Root.SignCommitmentTx", .slot), ("Root.AddBlock", .monitor), ("Root.AddBlock", .monitorDecode),
+       ("Root.RemoveBlock", .monitor), ("Root.RemoveBlock", .monitorDecode),
+       ("Root.SignAnchorspend", .nodeState), ("Channel.ValidateCommitmentTx", .nodeState),
+       ("Channel.ValidateCommitmentTx2", .nodeState), ("Handler.fn.sign_withdrawal", .nodeState)] := by
+  decide +kernel
+
+/-- … spelled out for the channel-level classes: NO extracted program writes the channel map or the tracker in a
+section that follows another section on it, and none except `Root.SignCommitmentTx` does so for a channel slot; every
+program that writes a slot opens exactly ONE writing slot section -/
+theorem C20_channel_phases_one_interval :
+    ∀ p ∈ progs, splitRW .channels p.2 = false ∧ splitRW .tracker p.2 = false ∧
+      (p.1 ≠ "Root.SignCommitmentTx" → splitRW .slot p.2 = false ∧ ((secsOf .slot p.2).filter id).length ≤ 1) := by
+  decide +kernel
+
+/-- non-vacuity: at least 10 programs write a channel slot, at least 6 write the channel map, 4 the tracker -/
+example : (progs.filter (fun p => (secsOf .slot p.2).any id)).length ≥ 10 ∧
+    (progs.filter (fun p => (secsOf .channels p.2).any id)).length ≥ 6 ∧
+    (progs.filter (fun p => (secsOf .tracker p.2).any id)).length ≥ 4 := by
+  decide +kernel
+
 /-- generated-table obligation tying the code to the hypothesis of `Locks_2pl_serializable`: in every
 Channel method that read-modify-writes the node ledger (claimable_balances / validate_payments ...
 apply_payments) these steps sit in ONE node_state critical section: the node_state events of the
@@ -754,6 +911,139 @@ theorem C20_programs_invariant_lifts {D : Type} (mem0 : Lock → D) (reqs : List
     rw [Bool.and_eq_true] at hf
     exact ⟨by rw [← strict2pl_shape]; exact hf.1, by rw [← hasRel_shape]; exact hf.2⟩
   exact Locks_2pl_invariant_lifts mem0 reqs (fun r hr => (h2 r hr).1) (fun r hr => (h2 r hr).2) Inv h0 hstep
+
+/-! ### The write projection is SOUND: reader sections can be erased (theorem, no longer an assumption) -/
+
+/-- **Serializability of FULL requests** (unbounded: any lock/data types, any number of threads, every schedule).
+Every request is given in full — every acquisition and release it performs, reader sections included — with a flag on
+the acquisitions of the sections to be disregarded; `eraseOk`: the thread does not update `l` inside a disregarded
+section on `l`.  If what remains after erasing those sections (`erase`) is a strict two-phase transaction, then for
+EVERY complete interleaved execution of the FULL requests the final data equals the data after running the full
+requests sequentially in some order containing each exactly once.  Proof: every step of the full execution is
+simulated by zero or one step of the erased execution with the same data (`erase_sim_step`: an erased acquisition
+only removes blocking), then `Locks_2pl_serializable`.  So a request such as a commitment update — channel-map
+lookup (released), slot, validator-factory / monitor reads and the node ledger nested inside — which is NOT two-phase
+as a whole, is serializable because its WRITING sections are. -/
+theorem Locks_full_requests_serializable {L D : Type} [DecidableEq L] (mem0 : L → D)
+    (freqs : List (List (FEv L D)))
+    (hok : ∀ r ∈ freqs, eraseOk [] r = true)
+    (hstrict : ∀ r ∈ freqs, strict2pl (erase [] r) = true)
+    (hrel : ∀ r ∈ freqs, hasRel (erase [] r) = true) :
+    ∀ n s, Locks2pl.Steps n (Locks2pl.mkState mem0 (freqs.map unflag)) s → Locks2pl.allDone s →
+      ∃ order : List Nat, order.Nodup ∧ (∀ i, i ∈ order ↔ i < freqs.length) ∧
+        ∀ l, s.mem l = (order.foldl (fun m i => runReq m (unflag (freqs[i]?.getD []))) mem0) l := by
+  intro n s hs hdone
+  obtain ⟨m, s', hs', hrel'⟩ := erase_sim_steps (srel_init mem0 freqs hok) hs
+  have hdone' := srel_allDone hrel' hdone
+  obtain ⟨order, hnd, hmem, hdata⟩ := Locks_2pl_serializable mem0 (freqs.map (erase []))
+    (by intro r hr; obtain ⟨q, hq, rfl⟩ := List.mem_map.mp hr; exact hstrict q hq)
+    (by intro r hr; obtain ⟨q, hq, rfl⟩ := List.mem_map.mp hr; exact hrel q hq) m s' hs' hdone'
+  refine ⟨order, hnd, by simpa using hmem, ?_⟩
+  intro l
+  rw [hrel'.1, hdata l]
+  have : (fun (m : L → D) (i : Nat) => runReq m ((freqs.map (erase []))[i]?.getD []))
+      = (fun m i => runReq m (unflag (freqs[i]?.getD []))) := by
+    funext m i
+    simp only [List.getElem?_map]
+    cases freqs[i]? with
+    | none => rfl
+    | some r => exact runReq_erase r m
+  rw [this]
+
+/-- the full flagged request of a generated program: every event of its canonical path; one `upd` after the acquisition
+of each writing section; the flag "disregard" on exactly the sections that `wproj` erases (a section that does not
+write and is not followed by a separate writing section of the same class) -/
+def conc : List (Bool × Bool × Cls) → List (FEv Cls Unit)
+  | [] => []
+  | (true, w, c) :: r =>
+    if w then (false, .acq c) :: (false, .upd c id) :: conc r
+    else (!(r.any (fun e => e.1 && e.2.1 && e.2.2 == c)), .acq c) :: conc r
+  | (false, _, c) :: r => (false, .rel c) :: conc r
+
+/-- the write projection of the generated programs IS the erasure of their full paths (general, by induction) -/
+theorem wproj_eq_erase : ∀ (p : List (Bool × Bool × Cls)) (er : List Cls), wproj er p = erase er (conc p) := by
+  intro p
+  induction p with
+  | nil => intro er; rfl
+  | cons e r ih =>
+    intro er
+    obtain ⟨a, w, c⟩ := e
+    cases a with
+    | true =>
+      cases w with
+      | true => simp [wproj, conc, erase, ih]
+      | false =>
+        cases h : r.any (fun e => e.1 && e.2.1 && e.2.2 == c)
+        · simp only [wproj, conc, erase, h, Bool.false_eq_true, if_false, Bool.not_false, if_true]; exact ih _
+        · simp only [wproj, conc, erase, h, Bool.false_eq_true, if_false, if_true, Bool.not_true]; simp [ih]
+    | false =>
+      by_cases h : er.contains c = true
+      · simp only [wproj, conc, erase, h, if_true]; exact ih _
+      · simp only [wproj, conc, erase, h]; simp [ih]
+
+/-- generated-table obligation: in NO extracted program does a disregarded (reader) section contain a write of its
+own class — the `eraseOk` hypothesis of `Locks_full_requests_serializable` for `conc` of every program -/
+theorem C20_full_programs_erase_ok : ∀ p ∈ progs, eraseOk [] (conc p.2) = true := by
+  decide +kernel
+
+/-- the lock of class `c` in a request on channel `i` (as `instPath`) -/
+def lockOf (i : Nat) (c : Cls) : Lock :=
+  ⟨c, match c with | .slot | .monitor | .monitorDecode => i | _ => 0⟩
+
+theorem lockOf_inj (i : Nat) : ∀ a b, lockOf i a = lockOf i b → a = b :=
+  fun _ _ h => congrArg Lock.cls h
+
+/-- the FULL flagged paths (`conc`) of the generated programs whose write projection is one strict two-phase
+transaction -/
+def fullTwoPhase : List (List (FEv Cls Unit)) :=
+  (progs.filter (fun p => strict2pl (wproj [] p.2) && hasRel (wproj [] p.2))).map (fun p => conc p.2)
+
+theorem eraseOk_of_full {q : List (FEv Cls Unit)} (hq : q ∈ fullTwoPhase) :
+    eraseOk [] q = true ∧ strict2pl (erase [] q) = true ∧ hasRel (erase [] q) = true := by
+  unfold fullTwoPhase at hq
+  obtain ⟨p, hp, rfl⟩ := List.mem_map.mp hq
+  obtain ⟨hpm, hf⟩ := List.mem_filter.mp hp
+  rw [Bool.and_eq_true] at hf
+  refine ⟨C20_full_programs_erase_ok p hpm, ?_, ?_⟩
+  · rw [← wproj_eq_erase]; exact hf.1
+  · rw [← wproj_eq_erase]; exact hf.2
+
+/-- **Serializability of the extracted programs, FULL paths.**  Any number of concurrent requests with any data
+type and any deterministic update functions, each of which follows — on some channel `i`, event by event, reader
+sections included — the full canonical path of one of the generated programs whose write projection is a strict
+two-phase transaction (every ChannelHandler arm except the pre-v5 ValidateCommitmentTx(2), new_channel,
+setup_channel, unchecked_sign_onchain_tx, the invoice / keysend / allowlist kinds …): for EVERY complete interleaved
+execution the final data (every channel, the node ledger, the channel map, the tracker, every monitor) equals the
+data after running the requests sequentially in some order.  Unlike `C20_programs_serializable` nothing is erased
+from the executions considered: the soundness of the write projection is `Locks_full_requests_serializable`. -/
+theorem C20_full_programs_serializable {D : Type} (mem0 : Lock → D) (freqs : List (List (FEv Lock D)))
+    (hshape : ∀ r ∈ freqs, ∃ q ∈ fullTwoPhase, ∃ i : Nat,
+      mapF (fun l : Lock => l) (id : Unit → Unit) r = mapF (lockOf i) (id : Unit → Unit) q) :
+    ∀ n s, Locks2pl.Steps n (Locks2pl.mkState mem0 (freqs.map unflag)) s → Locks2pl.allDone s →
+      ∃ order : List Nat, order.Nodup ∧ (∀ i, i ∈ order ↔ i < freqs.length) ∧
+        ∀ l, s.mem l = (order.foldl (fun m i => runReq m (unflag (freqs[i]?.getD []))) mem0) l := by
+  have hid : ∀ a b : Lock, (fun l : Lock => l) a = (fun l : Lock => l) b → a = b := fun _ _ h => h
+  have key : ∀ r ∈ freqs, eraseOk [] r = true ∧ strict2pl (erase [] r) = true ∧ hasRel (erase [] r) = true := by
+    intro r hr
+    obtain ⟨q, hq, i, he⟩ := hshape r hr
+    obtain ⟨h1, h2, h3⟩ := eraseOk_of_full hq
+    have e1 := eraseOk_mapF (fun l : Lock => l) hid (id : Unit → Unit) r []
+    have e2 := eraseOk_mapF (lockOf i) (lockOf_inj i) (id : Unit → Unit) q []
+    have f1 := erase_mapF (fun l : Lock => l) hid (id : Unit → Unit) r []
+    have f2 := erase_mapF (lockOf i) (lockOf_inj i) (id : Unit → Unit) q []
+    simp only [List.map_nil] at e1 e2 f1 f2
+    rw [he] at e1 f1
+    refine ⟨by rw [← e1, e2]; exact h1, ?_, ?_⟩
+    · rw [← strict2pl_map (fun l : Lock => l) (id : Unit → Unit), ← f1, f2, strict2pl_map]; exact h2
+    · rw [← hasRel_map (fun l : Lock => l) (id : Unit → Unit), ← f1, f2, hasRel_map]; exact h3
+  exact Locks_full_requests_serializable mem0 freqs (fun r hr => (key r hr).1) (fun r hr => (key r hr).2.1)
+    (fun r hr => (key r hr).2.2)
+
+/-- non-vacuity of `C20_full_programs_serializable`: at least 30 full programs qualify, and at least 20 of them are
+NOT two-phase as they stand (they release the channel map before taking the slot, open and close reader sections) -/
+example : fullTwoPhase.length ≥ 30 ∧
+    (fullTwoPhase.filter (fun q => !strict2pl (unflag q))).length ≥ 20 := by
+  decide +kernel
 
 /-- non-vacuity of `C20_programs_serializable`: at least 30 generated programs are strict two-phase write
 transactions, among them the nested pattern "slot, then the node ledger inside it" of the commitment arms
